@@ -6,7 +6,7 @@ import random
 
 from rv import bridge, gen, solvercheck as SC, suite
 from rv.bridge import ALL, ANY
-from rv.core import Inconclusive, jsonable
+from rv.core import Inconclusive, SkipCase, jsonable, skippable
 from rv.props.C04 import snapshot
 from rv.refmodel import dtl, trees as RT
 from rv.refmodel.trees import T
@@ -39,9 +39,11 @@ MAX_SET = 400
 
 def plan(tier, seed):
     q = tier == "quick"
-    n = 12 if q else 28
-    specs = [{"kind": "meta", "i": i, "count": 30 if q else 220} for i in range(n)]
+    n = 16 if q else 28
+    specs = [{"kind": "meta", "i": i, "count": 40 if q else 220} for i in range(n)]
     specs += [{"kind": "mirror_exh", "i": i, "n": 8 if q else 16, "ncost": 2 if q else 6} for i in range(8 if q else 16)]
+    # many small object trees on WIDE species trees (6-9 leaves), each against its mirrored presentations
+    specs += [{"kind": "mirror_wide", "i": i, "count": 250 if q else 1500} for i in range(16)]
     # determinism batch: the same cases in fresh processes with different hash seeds
     for hs in ([0, 1, 2, 12345] if q else [0, 1, 2, 3, 77, 4242, 31337, 99991, 5, 6, 7, 8]):
         specs.append({"kind": "det", "batch": 24 if q else 200, "_hashseed": hs, "_canaries": False})
@@ -147,6 +149,7 @@ def random_case(rng, algo, max_obj=10, max_sp=8, max_fam=4):
 
 
 # ------------------------------------------------------------------ relations
+@skippable
 def check_relations(ctx, case, rng):
     algo = case["algo"]
     kind = SC.kind_of(algo)
@@ -345,7 +348,55 @@ def mirror_exh(ctx, spec):
                 return
 
 
+def mirror_wide(ctx, spec):
+    """Child-order relation on wide species trees: a transfer recipient several levels below the donor, in another
+    branch, written to its left or to its right - placements that 3-5 species cannot express."""
+    rng = ctx.rng("mirror_wide")
+    for k in range(spec["count"]):
+        algo = ("ext_spfs", "superdtl", "thl", "ext_spfs")[k % 4]
+        kind = SC.kind_of(algo)
+        if kind == "plain":
+            Gn, Sn, lm = gen.random_input(rng, 5, 9, min_obj=3, min_sp=6)
+            case = {"algo": algo, "G": Gn, "S": Sn, "leafmap": lm, "costs": gen.random_cost(rng, plain=False)}
+        else:
+            case = suite.random_super_case(rng, algo, 4, 9, 2, consistent_p=1.0, min_obj=3, min_sp=6)
+            case["algo"] = algo
+        if case["costs"]["floss"] == 0:
+            case["costs"]["floss"] = 1
+        if not dtl.coherent(num_cost(case["costs"])):
+            continue
+        try:
+            base = solve(case)
+            ctx.count("evaluations")
+            if base["exc"]:
+                ctx.viol("C09.total", case, f"{algo} raised: {base['exc']}")
+                continue
+            if base["n"] > MAX_SET:
+                continue
+            norm = canon_sorted_syn(base["set"]) if kind == "unordered" else base["set"]
+            for name, g2, s2 in (("species", case["G"], mirror_all(case["S"])), ("both", mirror_all(case["G"]), mirror_all(case["S"]))):
+                c2 = dict(case, G=g2, S=s2)
+                r = solve(c2)
+                ctx.count("evaluations")
+                ctx.count("mon.reorder")
+                ctx.count("mon.mirror_wide")
+                got = None if r["exc"] else (canon_sorted_syn(r["set"]) if kind == "unordered" else r["set"])
+                if r["exc"]:
+                    ctx.viol("C09.reorder", dict(case, relation="reorder", transformed=c2), f"{algo} raised after mirroring: {r['exc']}")
+                elif r["min"] != base["min"] or got != norm:
+                    ctx.viol("C09.reorder", dict(case, relation="reorder", transformed=c2),
+                             f"{algo}: mirroring the children of the {name} tree(s) changed the result (min {base['min']} -> {r['min']}, {len(norm)} -> {len(got)} optimal solutions, {len(norm ^ got)} differ)")
+        except SkipCase:
+            ctx.count("skipped_budget")
+            continue
+        ctx.sig(("mirror_wide", algo, len(case["leafmap"]), base["min"] if base["min"] < 12 else 12, min(base["n"], 9)), base["n"] >= 2)
+        if ctx.too_many():
+            return
+
+
 def run(ctx, spec):
+    if spec["kind"] == "mirror_wide":
+        return mirror_wide(ctx, spec)
     if spec["kind"] == "mirror_exh":
         return mirror_exh(ctx, spec)
     if spec["kind"] == "meta":
@@ -376,12 +427,20 @@ def run(ctx, spec):
             random.Random(f"order-{hs}").shuffle(batch)
         ctx.notes.append(f"determinism batch order under PYTHONHASHSEED={hs}: {order_kind}")
         for k, algo, case in batch:
-            res = solve(case)
+            try:
+                res = solve(case)
+            except SkipCase:
+                ctx.count("skipped_budget")
+                continue
             ctx.count("evaluations")
             if res["exc"] is None and res["n"] > 4 * MAX_SET:
                 continue
             ctx.digests[f"det{k}"] = {"digest": digest(res), "case": case}
-            anyr = solve(case, ANY, B=res["B"])
+            try:
+                anyr = solve(case, ANY, B=res["B"])
+            except SkipCase:
+                ctx.count("skipped_budget")
+                continue
             ctx.count("evaluations")
             if res["exc"] is None and (anyr["exc"] or not anyr["set"] <= res["set"]):
                 ctx.viol("C09.determinism", case, f"{algo}: the ANY answer is not inside the ALL set in this process")
